@@ -123,3 +123,13 @@ Qed.
 
 Example to_dense_entry_nonvacuous : wfS ex_s /\ NoDupKeys ex_s.
 Proof. split; [exact ex_s_wf|exact ex_s_nodup]. Qed.
+
+(* ---- tie to the source by proof (package r2c): the functions regenerated from /repo/src on this run by the Rust-subset ->
+   Gallina translator (driver/rust2coq.py -> gen/Src*.v) are equal, for all arguments, to the hand-written model functions
+   the theorems above are about (Proofs/SrcEq*.v).  A change of a loop bound, index, operator or statement order in the
+   source breaks the corresponding src_<function> lemma and with it this obligation. *)
+From OV Require Proofs.SrcEqSparse.
+Theorem model_is_source_C07_Sparse : forall A : Arith, @SrcEqSparse.model_is_source_Sparse A.
+Proof. intros A. exact SrcEqSparse.model_is_source_Sparse_lemma. Qed.
+Check model_is_source_C07_Sparse : forall A : Arith, @SrcEqSparse.model_is_source_Sparse A.
+Print Assumptions model_is_source_C07_Sparse.
